@@ -75,12 +75,15 @@ type vC10Origin struct{}
 
 func (vC10Origin) RoundTrip(*http.Request) (*http.Response, error) {
 	vC10Calls++
-	h := http.Header{"Content-Type": {"application/json"}, "Date": {time.Now().UTC().Format(http.TimeFormat)}}
-	switch vC10Kind {
-	case 1:
-		h.Set("Cache-Control", fmt.Sprintf("max-age=%d", vC10MaxAge))
-	case 2:
-		h.Set("Cache-Control", "no-store")
+	h := http.Header{"Content-Type": {"application/json"}}
+	if !verifapi.Symbolic() { // the engine's stand-in of the RFC 7234 evaluation does not read the headers
+		h.Set("Date", time.Now().UTC().Format(http.TimeFormat))
+		switch vC10Kind {
+		case 1:
+			h.Set("Cache-Control", fmt.Sprintf("max-age=%d", vC10MaxAge))
+		case 2:
+			h.Set("Cache-Control", "no-store")
+		}
 	}
 	return &http.Response{StatusCode: http.StatusOK, Status: "200 OK", Proto: "HTTP/1.1", ProtoMajor: 1, ProtoMinor: 1,
 		Header: h, Body: http.NoBody, ContentLength: 0}, nil
